@@ -54,6 +54,7 @@ func (e *renv) lookup(tab, name string) (RV, bool) {
 }
 
 type rex struct {
+	num  int    // > 0: the column reference is written as tab.num
 	k    string // col lit arith cmp and or not isnull between in case insub exists scalar
 	tab  string
 	col  string
@@ -102,6 +103,9 @@ func (x *rex) SQL() string {
 	case "col":
 		if x.tab == "" {
 			return x.col
+		}
+		if x.num > 0 {
+			return x.tab + "." + strconv.Itoa(x.num) // the column addressed by its number in its table
 		}
 		return x.tab + "." + x.col
 	case "lit":
@@ -757,7 +761,15 @@ func genPredC03(r *core.Rng, als []aliasInfo, depth int, allowSub bool) *rex {
 			ints = append(ints, cn)
 		}
 	}
-	ic := func() *rex { return icol(al.alias, ints[r.Intn(len(ints))]) }
+	ic := func() *rex {
+		c := icol(al.alias, ints[r.Intn(len(ints))])
+		// a column that is no join key may be written as table.N (N = its position in the table as it was loaded, also behind
+		// joins that merge other columns)
+		if (al.base == "a" && len(al.cols) == 4 && c.col == "v" || al.base == "b" && len(al.cols) == 3 && c.col == "w") && al.cols[2] == c.col && r.P(30) {
+			c.num = 3
+		}
+		return c
+	}
 	switch r.Intn(10) {
 	case 0:
 		return cmpx(cmpOps[r.Intn(6)], ic(), ilit(r.Range(0, 6)))
@@ -1018,7 +1030,11 @@ func genQueryC03(r *core.Rng) *rquery {
 				continue
 			}
 		}
-		q.sel = append(q.sel, icol(a.alias, cn))
+		col := icol(a.alias, cn)
+		if (a.base == "a" && cn == "v" || a.base == "b" && cn == "w") && a.alias == a.base && r.P(40) {
+			col.num = 3 // written as table.3
+		}
+		q.sel = append(q.sel, col)
 	}
 	return q
 }
@@ -1316,7 +1332,7 @@ func c03Case(w *core.Worker, i int) {
 	}
 	// multi-column USING / NATURAL outer joins: several merged columns, NULLs in the first of them
 	for _, jk := range []string{"LEFT", "RIGHT", "FULL", "INNER"} {
-		for _, uc := range []string{"k, id", "id, k", ""} {
+		for _, uc := range []string{"k, id", "id, k", "", "k"} {
 			if r.P(50) {
 				continue
 			}
@@ -1324,7 +1340,16 @@ func c03Case(w *core.Worker, i int) {
 			if uc == "" {
 				j.jmode = "natural"
 			}
-			q := &rquery{src: j, sel: []*rex{{k: "col", tab: "", col: "id"}, {k: "col", tab: "", col: "k"}, icol("a", "v"), icol("b", "w")}}
+			cv, cw := icol("a", "v"), icol("b", "w")
+			if r.P(50) {
+				cv.num, cw.num = 3, 3 // a.3 / b.3: the third column of each table, wherever the merged columns went
+			}
+			q := &rquery{src: j, sel: []*rex{{k: "col", tab: "", col: "id"}, {k: "col", tab: "", col: "k"}, cv, cw}}
+			if uc == "k" {
+				// only the second column is merged: the first columns stay where they are, the later ones close up
+				q.sel[0] = icol("a", "id")
+				q.sel = append(q.sel, icol("b", "id"))
+			}
 			if r.P(40) {
 				q.where = &rex{k: "isnull", a: &rex{k: "col", tab: "", col: "k"}}
 			}
